@@ -182,10 +182,10 @@ Definition ancestors_answer_ok (s : store) (a b : N) (res : ares) : Prop :=
   | AErr _ => exists ra rb, by_hash s a = Some ra /\ by_hash s b = Some rb /\ ~ reach s a rb
   end.
 
-Theorem ancestors_fixed_spec s a b : Valid s -> regular s a -> ancestors_answer_ok s a b (ancestors_fixed s a b).
+Theorem ancestors_spec s a b : Valid s -> regular s a -> ancestors_answer_ok s a b (ancestors s a b).
 Proof.
   intros HV HR. pose proof (wf_nodup s (valid_wf s HV)) as Hnd.
-  unfold ancestors_fixed, ancestors_gen.
+  unfold ancestors, ancestors_gen.
   destruct (by_hash s a) as [ra|] eqn:Ea; [|cbn; left; exact Ea].
   destruct (by_hash s b) as [rb|] eqn:Eb; [|cbn; right; exact Eb].
   destruct (by_hash_in _ _ _ Ea) as [Hrain Hraid]. destruct (by_hash_in _ _ _ Eb) as [Hrbin Hrbid].
@@ -212,14 +212,14 @@ Proof.
 Qed.
 
 (* the iff of the design: Ok exactly when b is an ancestor-or-self of a *)
-Corollary ancestors_fixed_iff s a b : Valid s -> regular s a ->
-  ((exists p, ancestors_fixed s a b = AOk p) <-> exists rb, by_hash s b = Some rb /\ reach s a rb).
+Corollary ancestors_iff s a b : Valid s -> regular s a ->
+  ((exists p, ancestors s a b = AOk p) <-> exists rb, by_hash s b = Some rb /\ reach s a rb).
 Proof.
-  intros HV HR. pose proof (ancestors_fixed_spec s a b HV HR) as H. split.
+  intros HV HR. pose proof (ancestors_spec s a b HV HR) as H. split.
   - intros [p Hp]. rewrite Hp in H. cbn in H. destruct H as [(-> & _ & ra & Ea)|(_ & Hpath)].
     + exists ra. split; [exact Ea| apply reach_here; exact Ea].
     + destruct (path_reach _ _ _ _ Hpath) as (rb & Eb & Hr & _). exists rb. auto.
-  - intros (rb & Eb & Hr). destruct (ancestors_fixed s a b) as [p|e]; [exists p; reflexivity|].
+  - intros (rb & Eb & Hr). destruct (ancestors s a b) as [p|e]; [exists p; reflexivity|].
     exfalso. destruct e; cbn in H.
     + destruct H as [H|H]; [|congruence]. inversion Hr; congruence.
     + destruct H as (ra & rb' & _ & Eb' & Hn). apply Hn. congruence.
@@ -227,12 +227,16 @@ Proof.
     + exact H.
 Qed.
 
-(* the code as it is differs from the repaired variant on exactly one class of arguments *)
-Lemma ancestors_vs_fixed s a b :
-  ancestors s a b = ancestors_fixed s a b \/
-  (exists ra rb, by_hash s a = Some ra /\ by_hash s b = Some rb /\ height ra = height rb /\ a <> b /\ ancestors s a b = AOk []).
+(* History: before the fix ed2f6a2 of /repo the equal-height branch returned [] without comparing the hashes
+   (Query.ancestors_before_fix); that model satisfied this statement only for arguments other than two different
+   headers of equal height (formerly ancestors_spec_partial) and was refuted on ex_store, a = 2, b = 3
+   (formerly ancestors_equal_height_refuted; finding C04-ancestors-equal-height-empty, now "fixed"). *)
+Lemma ancestors_before_fix_differs s a b :
+  ancestors_before_fix s a b = ancestors s a b \/
+  (exists ra rb, by_hash s a = Some ra /\ by_hash s b = Some rb /\ height ra = height rb /\ a <> b /\
+                 ancestors_before_fix s a b = AOk [] /\ ancestors s a b = AErr ENotSame).
 Proof.
-  unfold ancestors, ancestors_fixed, ancestors_gen.
+  unfold ancestors, ancestors_before_fix, ancestors_gen.
   destruct (by_hash s a) as [ra|] eqn:Ea; [|left; reflexivity].
   destruct (by_hash s b) as [rb|] eqn:Eb; [|left; reflexivity].
   destruct (height ra <? height rb); [left; reflexivity|].
@@ -240,14 +244,4 @@ Proof.
   cbn [andb]. destruct (N.eqb_spec (id rb) (id ra)) as [Eid|Eid]; [left; reflexivity|].
   right. exists ra, rb. repeat split; auto.
   intro E. subst b. apply Eid. congruence.
-Qed.
-
-(* the statement for the code AS IT IS: everything except two different headers of equal height *)
-Theorem ancestors_spec_partial s a b : Valid s -> regular s a ->
-  (forall ra rb, by_hash s a = Some ra -> by_hash s b = Some rb -> height ra = height rb -> a = b) ->
-  ancestors_answer_ok s a b (ancestors s a b).
-Proof.
-  intros HV HR Hex. destruct (ancestors_vs_fixed s a b) as [->|(ra & rb & Ea & Eb & Hh & Hne & _)].
-  - apply ancestors_fixed_spec; assumption.
-  - exfalso. apply Hne. apply (Hex ra rb Ea Eb Hh).
 Qed.
